@@ -432,7 +432,16 @@ def check_case(case: dict) -> Outcome:
         pipeline = ProcessingPipeline.from_dict({"transformations": [to_pipeline_item(t) for t in chain],
                                                  "vars": case.get("vars", {})})
         rule = SigmaRule.from_dict(copy.deepcopy(doc))
-        queries = make_backend(CFG, pipeline).convert_rule(rule)
+        backend = make_backend(CFG, pipeline)
+        if case.get("warmup"):
+            # the same backend and pipeline objects first convert a rule from another log source: the
+            # rewrite of the rule under test must not depend on what the pipeline processed before
+            out.label("after-warm-up-rule")
+            try:
+                backend.convert_rule(SigmaRule.from_dict(dict(copy.deepcopy(doc), title="warm-up", logsource={"category": "warmcat", "product": "warmprod", "service": "warmsvc"})))
+            except (SigmaError, NotImplementedError):
+                pass
+        queries = backend.convert_rule(rule)
         fields_after = list(rule.fields)
     except SigmaError as e:
         if exp_fail is None:
@@ -676,7 +685,7 @@ def cases(draw):
     doc = draw(docs())
     if not _domain_ok(doc, chain):
         doc["detection"] = {"sel": {"f": "a"}, "condition": "sel"}
-    return {"doc": doc, "chain": chain}
+    return {"doc": doc, "chain": chain, "warmup": draw(st.integers(0, 3)) == 0}
 
 
 IDENTITY = [
